@@ -91,9 +91,17 @@ def integral_name(
     form_id: int,
     subdomain_id: Literal["everywhere"] | numbers.Integral | tuple[numbers.Integral, ...],
     prefix: str,
+    integral_id: int | None = None,
 ) -> str:
-    """Get integral name."""
-    sig = compute_signature([original_form], str((prefix, integral_type, form_id, subdomain_id)))
+    """Get integral name.
+
+    ``integral_id`` is the index of the integral group in the form data. It
+    separates groups that agree in type and subdomain id but live on
+    different meshes.
+    """
+    sig = compute_signature(
+        [original_form], str((prefix, integral_type, form_id, subdomain_id, integral_id))
+    )
     return f"integral_{sig}"
 
 
